@@ -130,18 +130,18 @@ Qed.
 Lemma blen_enc_hdrs_cons kv h : enc_hdrs (kv :: h) = enc_kv kv ++ enc_hdrs h.
 Proof. reflexivity. Qed.
 
-Lemma md_loop_enc h : forall pre rest acc,
+Lemma md_loop_enc h : forall pre rest,
   Forall kv_ok h ->
-  md_loop (length h) (pre ++ enc_hdrs h ++ rest) (blen pre) acc = Ok (blen pre + blen (enc_hdrs h), acc ++ h).
+  md_loop (length h) (pre ++ enc_hdrs h ++ rest) (blen pre) = Ok (blen pre + blen (enc_hdrs h), h).
 Proof.
-  induction h as [|kv h IH]; intros pre rest acc Hok.
-  - cbn. rewrite N.add_0_r, app_nil_r. reflexivity.
+  induction h as [|kv h IH]; intros pre rest Hok.
+  - cbn. rewrite N.add_0_r. reflexivity.
   - inversion Hok as [|? ? Hkv Hrest]; subst. cbn [length md_loop].
     rewrite blen_enc_hdrs_cons. rewrite <- app_assoc.
     rewrite md_entry_enc by assumption.
     rewrite (app_assoc pre (enc_kv kv)).
     replace (blen pre + blen (enc_kv kv)) with (blen (pre ++ enc_kv kv)) by (rewrite blen_app; reflexivity).
-    rewrite IH by assumption. rewrite !blen_app, <- app_assoc. cbn [app]. f_equal. f_equal. lia.
+    rewrite IH by assumption. rewrite !blen_app. f_equal. f_equal. lia.
 Qed.
 
 Theorem md_roundtrip_wire h r :
@@ -155,7 +155,7 @@ Proof.
   rewrite ltb_false by lia. rewrite slice_from_0. rewrite rd16_be16 by assumption.
   replace (N.to_nat n) with (length h) by (unfold n; lia).
   change 2 with (blen (be16 n)) at 1.
-  rewrite md_loop_enc by assumption. cbn [app].
+  rewrite md_loop_enc by assumption.
   rewrite blen_be16. rewrite ltb_false by lia.
   assert (E : slice_from (2 + blen (enc_hdrs h)) (be16 n ++ enc_hdrs h ++ be64 u) = Some (be64 u)).
   { rewrite app_assoc. apply slice_from_app. rewrite blen_app, blen_be16. reflexivity. }
@@ -217,11 +217,13 @@ Proof.
   rewrite E4. discriminate.
 Qed.
 
-Lemma md_loop_no_panic count : forall data pos acc, md_loop count data pos acc <> Panic.
+Lemma md_loop_no_panic count : forall data pos, md_loop count data pos <> Panic.
 Proof.
-  induction count as [|c IH]; intros data pos acc; cbn [md_loop]; [discriminate|].
+  induction count as [|c IH]; intros data pos; cbn [md_loop]; [discriminate|].
   pose proof (md_entry_no_panic data pos) as Hn.
-  destruct (md_entry data pos) as [| e | [pos' kv]]; [congruence | discriminate | apply IH].
+  destruct (md_entry data pos) as [| e | [pos' kv]]; [congruence | discriminate |].
+  pose proof (IH data pos') as Hn'.
+  destruct (md_loop c data pos') as [| e | [p l]]; [congruence | discriminate | discriminate].
 Qed.
 
 Theorem md_unmarshal_wire_no_panic data : md_unmarshal_wire data <> Panic.
@@ -229,8 +231,8 @@ Proof.
   unfold md_unmarshal_wire.
   destruct (N.ltb_spec (blen data) 10); [discriminate|].
   rewrite slice_from_0. destruct (rd16_some data ltac:(lia)) as [c Ec]. rewrite Ec.
-  pose proof (md_loop_no_panic (N.to_nat c) data 2 []) as Hn.
-  destruct (md_loop (N.to_nat c) data 2 []) as [| e | [pos hs]]; [congruence | discriminate |].
+  pose proof (md_loop_no_panic (N.to_nat c) data 2) as Hn.
+  destruct (md_loop (N.to_nat c) data 2) as [| e | [pos hs]]; [congruence | discriminate |].
   destruct (N.ltb_spec (blen data) (pos + 8)); [discriminate|].
   destruct (slice_from_some pos data ltac:(lia)) as [s [E L]]. rewrite E.
   destruct (rd64_some s ltac:(lia)) as [r Er]. rewrite Er. discriminate.
